@@ -165,4 +165,20 @@ c10['rule'] += ' | validation half: ' + LEDGER_RULE + 'C10 focus: covered fields
 c10['trusted_base'] = c10['trusted_base'] + LEDGER_TB
 c10['level_text'] += ' Validation half: every Go panic site of validation/application is an explicit Panic in the ledger model (checked Currency arithmetic, slice indexing through the shared elements map); the model recomputes the verdict of structure-aware adversarial blocks, which is how the miner-fee overflow panic (fixed: 67407a9) was found.'
 
+META['C12'] = {
+  'rule': ('(a) single-field mutation oracle by reflection: for 60 (thorough 3000) random fully-populated V2Transaction / Transaction / V2FileContract / V2FileContractRenewal / Attestation values, every reachable scalar location is changed in turn and ID(), FullHash(), InputSigHash, WholeSigHash, PartialSigHash (covering input 0 / output 0), ContractSigHash, RenewalSigHash, AttestationSigHash are recomputed: '
+           'locations classified effect-bearing (everything but signatures, SatisfiedPolicy witnesses, parent element content other than its ID, accumulator Merkle proofs) must change the ID and signature hash, the others must not; the signature hash must change exactly when the ID does; FullHash changes for every location; '
+           '(b) replay prefix: the same v1 transaction with an input hashed at heights either side of the ASIC, Foundation and v2 fork heights must differ exactly across eras; '
+           '(c) every derived ID (siacoin/siafund output, v2 contract, attestation, renter/host/renewal output, v2 claim, miner output) is recomputed by the extracted model as H("sia/"+name+"|"+parent+le64(index)) and all derived IDs over kinds/parents/indices are pairwise distinct; '
+           '(d) the translator re-extracts, on every run, which paths V2TransactionSemantics.EncodeTo writes and which it blanks, and which fields txnSansSigs writes; the kernel compares them with the pinned tables'),
+  'trusted_base': [KERNEL, EXTRACT, HARNESS, BLAKE, TRANSLATOR,
+                   'pinned tables semantics_written / semantics_blanked / distinguishers in Codec/Effects.v (transcribed from the property text: what is effect-bearing)',
+                   'the classification of reflection paths in harness/c12.go (v2Class) mirrors those tables'],
+  'assumptions': ['BLAKE2b collision resistance appears as the Collision disjunct of every theorem',
+                  'the storage proof\'s own Leaf/Proof (file data proof) are treated as bound by the ID, as implemented; only the accumulator proof of the proof-index element is a stripped "Merkle proof"',
+                  'known finding F8: SiafundInput.ClaimAddress is not written by the semantic encoding (reported as KNOWN-FINDING)',
+                  'block ID / commitment binding is exercised by the ledger stream variant c12.commitment-stale and by C13 header checks'],
+  'level_text': 'Proved: an identifier H(prefix ++ enc x) with injective enc determines x up to an exhibited collision and ignores everything outside the projection; the self-delimiting "sia/<name>|" framing makes derived IDs of different kinds, parents or positions distinct up to collision; all distinguishers of the tree are bar-free and pairwise distinct (kernel-evaluated); the path set written/blanked by the v2 semantic encoding and the v1 ID pre-image equal the pinned effect-bearing tables (kernel-evaluated against /repo on every run). Injectivity of the field encodings is C11. The implementation is tied by recomputing derived IDs in the model and by the exhaustive single-field mutation oracle.',
+}
+
 NOT_YET = {}
